@@ -6,7 +6,7 @@ import z3
 import contracts.dsl_bounded  # noqa: F401
 from y0vc.contract import Contract, as_nodes, contract, mk_graph
 from y0vc.exprs import VExpr, theory
-from y0vc.values import VSet
+from y0vc.values import VBool, VSet
 
 TR = "y0.algorithm.transport"
 
